@@ -32,7 +32,7 @@ CLAIMED = {
               "per-axis rule and fill value equal rule_in_force/value_in_force written from the statement, and the caller's "
               "mappings are unmodified; (B) symbolic execution of the real pad() with all sizes, widths >= 0, data and fill "
               "values universally quantified: sizes, original values in place, new cells = wrapped/constant/nearest value of "
-              "the rule in force, identity return iff all widths are zero, coordinates stripped."),
+              "the rule in force, identity return iff all widths are zero; also after earlier calls with other per-call settings on the same Grid."),
         design_ref="DESIGN.md 7/C02",
         note=COMMON_NOTE + "Spellings of the arguments are enumerated (bool/list/total dict; None/scalar/total/partial "
              "mapping); corner cells of multi-axis padding follow sequential extension in the order of boundary_width.",
@@ -282,8 +282,7 @@ CLAIMED = {
               "pattern (same number of chunks, first/last grow by the widths, sums to the padded length; sizes and widths symbolic, "
               "1-5 chunks), map_overlap called with depth = {numpy axis of the operated dimension after moving core dims last: "
               "boundary width}, boundary='none', trim=False and the unpadded chunks on the correctly padded and re-chunked array, "
-              "refusal (NotImplementedError) iff inner/outer or several outputs, map_overlap used iff the operated dimension is "
-              "chunked, no eager evaluation on any path of 14 operations (scalar/vector, simple/face-connected), lazy inputs "
+              "refusal (NotImplementedError) iff inner/outer or several outputs, no eager evaluation on any path of 14 operations (scalar/vector, simple/face-connected), lazy inputs "
               "accepted wherever in-memory inputs are with the same dims/coords/sizes/values. The scheduler clause is NOT decidable "
               "by contracts on xgcm; a native run with the real dask (6 chunk layouts x 9 operations x 2 schedulers, compute "
               "counting) is a BOUNDED stand-in."),
